@@ -11,6 +11,9 @@ TRUST = ("Trusted base: go/types, go/ssa and the VTA/CHA call graphs of golang.o
 
 # id -> (technique, claim text, design_ref)
 CLAIMED = {
+ "C06": ("SSA wire-shape automata (E-SHAPE): writer language ⊆ reader language by product search; token table from LookupPackage's switch (go/types constants); byte-accounting and freshness rules",
+         "Decides writer/reader agreement on the sequence of field widths for every package type (per wide variant) and every field codec pair, token/type agreement with LookupPackage, acceptance of the TDS 5.0 layouts by the server-only readers, read-side byte accounting, per-iteration freshness of parse targets and the oversize guard of the login record helper. It decides wire SHAPE, not values: length prefixes' numeric values, capability bit positions and login record offsets are not covered.",
+         "DESIGN.md §3 C06"),
  "C07": ("SSA error-discipline typestate (E-ERR) over every wire-read call site + dominance rules on PacketQueue.Bytes / tryParsePackage / LookupPackage",
          "Decides, for every one of the >210 call sites into wire-reading functions (exhaustive over the current tree, floor-checked), that a short read can only surface as an error for which errors.Is(err, ErrNotEnoughBytes) holds, that PacketQueue.Bytes succeeds only when n bytes were copied, that the channel retries exactly on that error without reporting, and that each attempt parses into a fresh object with no global side effects. This is the per-site contract the property rests on; it does not decide panics (C10) or parsers that read too little.",
          "DESIGN.md §3 C07"),
